@@ -7,6 +7,8 @@ package main
 // distinct branches, transactions interleaved and answered in any order.
 
 import (
+	"bufio"
+	"bytes"
 	"fmt"
 	"strings"
 	"testing"
@@ -27,9 +29,154 @@ type c12Txn struct {
 	Cancel bool
 }
 
+// ---- a minute later (unit engine) -------------------------------------------------
+//
+// The proxy sweeps its table of client transports once a minute. No lab history
+// lasts that long, so this part drives a Proxy object (the product's
+// constructors, recording doubles for backend and listeners) synchronously
+// through the product's own steps - handleRawMessage with the request's
+// connection, handleDialog, HandleMessage - moves the table's sweep clock back by
+// a minute while transactions are pending, and lets the backend answer: each
+// response must be written to the connection its request arrived on.
+
+type c12Backend struct {
+	addr string
+	got  [][]byte
+}
+
+func (b *c12Backend) Send(msg *Message) error {
+	w, err := msg.Bytes()
+	b.got = append(b.got, w)
+	return err
+}
+func (b *c12Backend) GetAddress() string { return b.addr }
+func (b *c12Backend) Close()             {}
+
+type c12Listener struct{ proto string }
+
+func (t *c12Listener) Start(MessageHandler) error       { return nil }
+func (t *c12Listener) Send(string, int, *Message) error { return nil }
+func (t *c12Listener) GetProtocol() string              { return t.proto }
+func (t *c12Listener) GetAddress() string               { return "127.0.0.77" }
+func (t *c12Listener) GetPort() int                     { return 5060 }
+func (t *c12Listener) IsExit() bool                     { return false }
+
+func c12AMinuteLater(rt *rapid.T) string {
+	p := NewProxy("svc.test", 1200, "127.0.0.77", false, NewPreConfigRoute(), NewPreConfigHostResolver(), NewSelfLearnRoute(), true, true)
+	rb := NewRoundRobinBackend()
+	be := &c12Backend{addr: "127.0.0.81:5080"}
+	rb.AddBackend(be)
+	tcpL := &c12Listener{"TCP"}
+	p.AddItem(&ProxyItem{backend: rb, transports: []ServerTransport{&c12Listener{"UDP"}, tcpL}})
+	patientUntil(5*time.Second, 50*time.Microsecond, func() bool { return len(p.backendChangeChannel) == 0 })
+	time.Sleep(200 * time.Microsecond)
+	parse := func(b []byte) *Message {
+		m, err := ParseMessage(bufio.NewReader(bytes.NewReader(b)))
+		if err != nil {
+			return nil
+		}
+		return m
+	}
+	n := rapid.IntRange(2, 8).Draw(rt, "connections")
+	sentBy := rapid.SampledFrom([]string{"127.0.0.91:5060", "127.0.0.91:5070", "client.invalid:5060"}).Draw(rt, "shared sent-by")
+	rport := rapid.Bool().Draw(rt, "rport")
+	stamp := rapid.Bool().Draw(rt, "received-support")
+	type txn struct {
+		conn    *c20Conn
+		relayed []byte
+		id      string
+	}
+	var txns []*txn
+	minutes := 0
+	aMinutePasses := func() {
+		p.clientTransMgr.Lock()
+		p.clientTransMgr.lastCleanTime -= 61
+		p.clientTransMgr.Unlock()
+		minutes++
+	}
+	for i := 0; i < n; i++ {
+		if i > 0 && rapid.IntRange(0, 2).Draw(rt, "a minute passes between two requests") == 0 {
+			aMinutePasses()
+		}
+		id := fmt.Sprintf("c12m-%d", i)
+		via := fmt.Sprintf("SIP/2.0/TCP %s;branch=z9hG4bK%s", sentBy, id)
+		if rport {
+			via += ";rport"
+		}
+		req := parse([]byte(fmt.Sprintf("INVITE sip:u@svc.test SIP/2.0\r\nVia: %s\r\nFrom: <sip:a@b>;tag=1\r\nTo: <sip:u@svc.test>\r\nCall-ID: %s\r\nCSeq: 1 INVITE\r\nContent-Length: 0\r\n\r\n", via, id)))
+		if req == nil {
+			return "harness: request not decoded"
+		}
+		c := &c20Conn{name: id, failAfter: -1}
+		raw := NewRawMessage("127.0.0.91", 40000+i, tcpL, stamp, req)
+		raw.TcpConn = c
+		before := len(be.got)
+		m2, err := p.handleRawMessage(raw)
+		if err != nil {
+			return fmt.Sprintf("request %d not accepted: %v", i, err)
+		}
+		p.handleDialog(raw.PeerAddr, raw.PeerPort, m2)
+		p.HandleMessage(m2)
+		if len(be.got) != before+1 {
+			return fmt.Sprintf("request %d did not reach the backend", i)
+		}
+		txns = append(txns, &txn{conn: c, relayed: be.got[len(be.got)-1], id: id})
+	}
+	aMinutePasses()
+	// the backend answers in a drawn order; a minute may pass between two answers
+	order := rapid.Permutation(txns).Draw(rt, "answer order")
+	for k, tx := range order {
+		if k > 0 && rapid.IntRange(0, 2).Draw(rt, "a minute passes between two answers") == 0 {
+			aMinutePasses()
+		}
+		in, err := sipRead(tx.relayed)
+		if err != nil {
+			return "harness: relayed request unreadable"
+		}
+		for _, code := range []int{180, 200} {
+			resp := parse(buildResponse(in, code, "Answer", "t"+tx.id, ""))
+			if resp == nil {
+				return "harness: response not decoded"
+			}
+			raw := NewRawMessage("127.0.0.81", 5080, &c12Listener{"UDP"}, false, resp)
+			m2, err := p.handleRawMessage(raw)
+			if err != nil {
+				return fmt.Sprintf("response not accepted: %v", err)
+			}
+			p.handleDialog(raw.PeerAddr, raw.PeerPort, m2)
+			p.HandleMessage(m2)
+			want := fmt.Sprintf("SIP/2.0 %d Answer", code)
+			for _, other := range txns {
+				other.conn.mu.Lock()
+				hits := 0
+				for _, w := range other.conn.writes {
+					if bytes.HasPrefix(w, []byte(want)) && bytes.Contains(w, []byte("Call-ID: "+tx.id+"\r\n")) {
+						hits++
+					}
+				}
+				other.conn.mu.Unlock()
+				if other == tx && hits != 1 {
+					return fmt.Sprintf("%d minute(s) passed while %d transactions were pending (shared sent-by %s, rport %v, received-support %v): the %d for request %s was written %d times to the connection the request arrived on, want once", minutes, n, sentBy, rport, stamp, code, tx.id, hits)
+				}
+				if other != tx && hits != 0 {
+					return fmt.Sprintf("%d minute(s) passed while %d transactions were pending: the %d for request %s was written to the connection of request %s", minutes, n, code, tx.id, other.id)
+				}
+			}
+		}
+	}
+	return ""
+}
+
 func TestC12(t *testing.T) {
-	V.Rule("lab: rapid state machines over 2-8 simultaneous client connections to one TCP listener, all from one loopback address (one address of the process's private block stands in for 127.0.0.1), each request announcing a Via sent-by drawn from a set of 1-3 values that are shared between connections (equal sent-by on different connections is the common case), with or without rport, pairwise distinct branches that share a stem and end in a small running number (one is often a prefix of another), listen entries with received-support on and off; requests go to UDP and TCP backends; the backends answer outstanding transactions in any order across connections, 1xx (0-3 per transaction) before the single final response, INVITE and non-INVITE, CANCEL of a pending INVITE (same branch, answered independently); unrelated UDP traffic and new connections in between; now and then a sent-by that names the real source port of another live connection, and once per history up to 160 complete transactions on the connections while others stay pending; on a separate instance a user agent connection and the connection to a TCP backend carry a provisional response, stay idle for 5.3 s (thorough 7.5 s) and must then still carry the final response. Oracle: every response is read on the connection whose request it answers and on no other connection; nothing is dialled to the announced sent-by address or to (client address, sent-by port), where the harness listens. non-trivial = history with >= 2 connections sharing a sent-by and >= 2 transactions open at once answered in another order than sent; distinct by history")
-	V.Require("CANCEL with the INVITE's branch, both answered", ">= 70 transactions completed while others stayed pending", "sent-by names the source port of another live connection", "response after a connection stayed idle for > 5 s", "a branch is a prefix of another branch of the history", "connections share a sent-by", ">=2 transactions open at once", "answered out of order", "provisional before final", "non-INVITE with provisional", "support:off", "support:on", "tcp backend", "udp backend")
+	V.Rule("lab: rapid state machines over 2-8 simultaneous client connections to one TCP listener, all from one loopback address (one address of the process's private block stands in for 127.0.0.1), each request announcing a Via sent-by drawn from a set of 1-3 values that are shared between connections (equal sent-by on different connections is the common case), with or without rport, pairwise distinct branches that share a stem and end in a small running number (one is often a prefix of another), listen entries with received-support on and off; requests go to UDP and TCP backends; the backends answer outstanding transactions in any order across connections, 1xx (0-3 per transaction) before the single final response, INVITE and non-INVITE, CANCEL of a pending INVITE (same branch, answered independently); unrelated UDP traffic and new connections in between; now and then a sent-by that names the real source port of another live connection, and once per history up to 160 complete transactions on the connections while others stay pending; on a separate instance a user agent connection and the connection to a TCP backend carry a provisional response, stay idle for 5.3 s (thorough 7.5 s) and must then still carry the final response. unit: a Proxy object driven synchronously through the product's own steps with 2-8 scripted connections sharing a sent-by, the once-a-minute sweep of the transport table forced between requests and between answers (the sweep clock moved back by 61 s), answers in a drawn order. Oracle: every response is read on the connection whose request it answers and on no other connection; nothing is dialled to the announced sent-by address or to (client address, sent-by port), where the harness listens. non-trivial = history with >= 2 connections sharing a sent-by and >= 2 transactions open at once answered in another order than sent; distinct by history")
+	V.Require("unit: the transport table swept while transactions were pending", "CANCEL with the INVITE's branch, both answered", ">= 70 transactions completed while others stayed pending", "sent-by names the source port of another live connection", "response after a connection stayed idle for > 5 s", "a branch is a prefix of another branch of the history", "connections share a sent-by", ">=2 transactions open at once", "answered out of order", "provisional before final", "non-INVITE with provisional", "support:off", "support:on", "tcp backend", "udp backend")
+	rcheck(t, "a-minute-later", V.N(300, 3000), func(rt *rapid.T) {
+		V.Class("unit: the transport table swept while transactions were pending")
+		if f := c12AMinuteLater(rt); f != "" {
+			failf(rt, "%s", f)
+		}
+		V.NonTrivial(fmt.Sprintf("minute|%d", V.evaluations))
+	})
 	s, err := newStdSvc(stdVariant{NoReceived: [3]string{"", "true", ""}})
 	if err != nil {
 		V.HarnessError(t, "cannot start lab instance: %v", err)
